@@ -10,7 +10,9 @@ import (
 
 	res "github.com/jirenius/go-res"
 
+	nats "github.com/nats-io/nats.go"
 	"verif/harness/internal/core"
+	"verif/harness/internal/natsenv"
 	"verif/harness/internal/ref"
 	"verif/harness/internal/sched"
 	"verif/harness/internal/vconn"
@@ -52,6 +54,7 @@ func init() {
 				bs = append(bs, core.Batch{Name: fmt.Sprintf("random-%d", s), TimeoutS: 600,
 					Params: core.Params(c04Params{Kind: "random", Shard: s, N: tierPick(tier, 4000, 40000)})})
 			}
+			bs = append(bs, core.Batch{Name: "nats-bursts", TimeoutS: 300, Params: core.Params(c04Params{Kind: "nats", N: tierPick(tier, 3, 12)})})
 			for i, w := range []int{1, 2, 8, 32} {
 				if tier == core.Quick && i%2 == 0 {
 					continue
@@ -383,6 +386,8 @@ func c04Run(c *core.Ctx, b core.Batch) {
 		c04Random(c, p)
 	case "concurrent":
 		c04Concurrent(c, p)
+	case "nats":
+		c04Nats(c, p)
 	}
 	for k, v := range sched.Counts() {
 		c.Obs("hook:"+k, v)
@@ -546,6 +551,100 @@ func c04NoQueue(c *core.Ctx, name string) {
 			}
 		}
 	}
+}
+
+// c04Nats: bursts of requests over an embedded NATS server (which drops what a
+// subscriber's channel cannot take) to services configured with the documented "use
+// the default" values: SetInChannelSize(0 or negative) and SetWorkerCount(0 or
+// negative). Every request of a burst smaller than the default in-channel size gets
+// exactly one response.
+func c04Nats(c *core.Ctx, p c04Params) {
+	ne, err := natsenv.Start()
+	if err != nil {
+		c.Inconclusive("nats: " + err.Error())
+		return
+	}
+	defer ne.Shutdown()
+	for round := 0; round < p.N; round++ {
+		inCh, workers := []int{0, -3, 0}[round%3], []int{0, 4, -1}[round%3]
+		snc, err := ne.Connect("service")
+		if err != nil {
+			c.Inconclusive("connect: " + err.Error())
+			return
+		}
+		svc := res.NewService("svc")
+		svc.SetLogger(&cntLogger{})
+		svc.SetInChannelSize(inCh)
+		svc.SetWorkerCount(workers)
+		svc.Handle("m.$id", res.Access(res.AccessGranted), res.GetModel(func(r res.ModelRequest) { r.Model(map[string]string{"id": r.PathParam("id")}) }),
+			res.Call("do", func(r res.CallRequest) { r.OK(r.PathParam("id")) }))
+		served := make(chan struct{})
+		svc.SetOnServe(func(*res.Service) { close(served) })
+		ret := make(chan error, 1)
+		go func() { ret <- svc.Serve(snc) }()
+		if !waitCh(served, 10*time.Second) {
+			c.Inconclusive("service did not start")
+			return
+		}
+		snc.Flush()
+		var mu sync.Mutex
+		got := map[string]int{}
+		prefix := fmt.Sprintf("_INBOX.c04n%d.", round)
+		sub, err := ne.GW.Subscribe(prefix+"*", func(m *nats.Msg) {
+			if !isPreResponse(m.Data) {
+				mu.Lock()
+				got[m.Subject]++
+				mu.Unlock()
+			}
+		})
+		if err != nil {
+			c.Inconclusive("subscribe: " + err.Error())
+			return
+		}
+		ne.GW.Flush()
+		const burst = 400
+		for i := 0; i < burst; i++ {
+			subj := []string{"get.svc.m.%d", "call.svc.m.%d.do", "access.svc.m.%d"}[i%3]
+			ne.GW.PublishRequest(fmt.Sprintf(subj, i%50), fmt.Sprintf("%s%d", prefix, i), []byte(`{"cid":"c"}`))
+		}
+		ne.GW.Flush()
+		deadline := time.Now().Add(8 * time.Second)
+		for time.Now().Before(deadline) {
+			mu.Lock()
+			n := len(got)
+			mu.Unlock()
+			if n >= burst {
+				break
+			}
+			time.Sleep(2 * time.Millisecond)
+		}
+		time.Sleep(20 * time.Millisecond)
+		sub.Unsubscribe()
+		mu.Lock()
+		missing, multiple := 0, 0
+		for i := 0; i < burst; i++ {
+			switch n := got[fmt.Sprintf("%s%d", prefix, i)]; {
+			case n == 0:
+				missing++
+			case n > 1:
+				multiple++
+			}
+		}
+		mu.Unlock()
+		c.Eval(burst)
+		c.Obs("nats_burst_requests", burst)
+		desc := map[string]interface{}{"SetInChannelSize": inCh, "SetWorkerCount": workers, "burst": burst, "unanswered": missing, "answered_more_than_once": multiple}
+		if missing > 0 {
+			c.Violation("C04/no-response:nats-burst", fmt.Sprintf("%d of %d requests sent in one burst over NATS got no response (SetInChannelSize(%d) and SetWorkerCount(%d) mean the defaults)", missing, burst, inCh, workers), desc)
+		}
+		if multiple > 0 {
+			c.Violation("C04/multiple-responses:nats-burst", fmt.Sprintf("%d of %d requests of a burst got more than one response", multiple, burst), desc)
+		}
+		c.Distinct(fmt.Sprintf("nats-burst/%d", round))
+		svc.Shutdown()
+		<-ret
+	}
+	c.Sample(map[string]interface{}{"scenario": "bursts of 400 requests over an embedded NATS server, default-valued configuration", "rounds": p.N})
 }
 
 // c04Restart: requests to resources whose work was still queued when the
